@@ -358,3 +358,39 @@ package pointindex
 //@     decreases len(parents) - k
 //@   ensures[C02,C03,C08] result == nil || forall(l Int, hasKey(result, l) ==> hasKey(levelMap, l) && l <= ix.deepestLevel && listSound(ix, intLine, l, result[l]))
 //@   ensures[C02,C03,C08] meets(intLine, ix.intExtent) && len(levelMap) > 0 ==> forall(l Int, 0 <= l && l <= ix.deepestLevel && hasKey(levelMap, l) ==> hasKey(result, l))
+
+// bookkeeping of which ring hit which centre how often: only safety is claimed (C06)
+//@ func checkPointHits
+//@   mode real
+//@   requires hasKey(ix.hitOnce, level) && !isNil(ix.hitOnce[level]) && hasKey(ix.hitMultiple, level) && !isNil(ix.hitMultiple[level])
+//@   modifies ix.hitOnce
+//@   modifies ix.hitMultiple
+//@   ensures !isNil(ix.hitOnce) && !isNil(ix.hitMultiple)
+//@   ensures hasKey(ix.hitOnce, level) && !isNil(ix.hitOnce[level]) && hasKey(ix.hitMultiple, level) && !isNil(ix.hitMultiple[level])
+
+// C03: every coordinate handed out for a level is the float form of the centre of a stored pixel of that level
+// that the segment meets (qs: the lists of the descent, position by position).
+//@ macro geomPt(c) = arr(c[0] / 10000000000, c[1] / 10000000000)
+//@ macro segCoordOK(p) = 0 - 200000000 < p[0] && p[0] < 200000000 && 0 - 200000000 < p[1] && p[1] < 200000000
+//@ func (*PointIndex).SnapClosestPoints
+//@   mode real
+//@   prelude geom arith
+//@   requires indexInv(ix) && !isNil(ix.hitOnce) && !isNil(ix.hitMultiple)
+//@   requires segCoordOK(line[0]) && segCoordOK(line[1])
+//@   modifies ix.hitOnce
+//@   modifies ix.hitMultiple
+//@   loop level as it
+//@     invariant !isNil(pointsPerLevel) && !isNil(ix.hitOnce) && !isNil(ix.hitMultiple)
+//@     invariant forall(l Int, hasKey(pointsPerLevel, l) ==> hasKey(quadrantsPerLevel, l) && len(pointsPerLevel[l]) == len(quadrantsPerLevel[l]) && len(pointsPerLevel[l]) > 0)
+//@     invariant forall(l Int, hasKey(pointsPerLevel, l) ==> forall(i, 0, len(pointsPerLevel[l]), pointsPerLevel[l][i] == geomPt(quadrantsPerLevel[l][i].intCentroid)))
+//@   loop quadrant as qi
+//@     invariant 0 - 1 <= qi && qi < len(quadrants) && len(points) == len(quadrants)
+//@     invariant forall(i, 0, qi + 1, points[i] == geomPt(quadrants[i].intCentroid))
+//@     invariant hasKey(ix.hitOnce, level) && !isNil(ix.hitOnce[level]) && hasKey(ix.hitMultiple, level) && !isNil(ix.hitMultiple[level])
+//@     invariant !isNil(ix.hitOnce) && !isNil(ix.hitMultiple)
+//@     decreases len(quadrants) - qi
+//@   postlet qs = quadrantsPerLevel
+//@   postlet il = intLine
+//@   ensures[C03,C02,C08] forall(l Int, hasKey(result, l) ==> hasKey(qs, l) && len(result[l]) == len(qs[l]) && len(result[l]) > 0)
+//@   ensures[C03,C02,C08] forall(l Int, hasKey(result, l) ==> forall(i, 0, len(result[l]), result[l][i] == geomPt(qs[l][i].intCentroid)))
+//@   ensures[C03,C02,C08] isNil(qs) || forall(l Int, hasKey(qs, l) ==> hasKey(levelMap, l) && l <= ix.deepestLevel && listSound(ix, il, l, qs[l]))
